@@ -6,7 +6,8 @@ import gens as G
 RULE = ("cases = (operation of either API incl. thermostat control with generated IR sets of text length 1..2000, argument values "
         "from accepted and rejected domains, random 3-byte id (also with leading zeros / upper case), 1-byte key, random 4-byte "
         "session id in login replies of 12..100 bytes, clock readings over the whole 32-bit range with fractional parts, 5 fixed-"
-        "offset zones); every frame the real API object writes is judged by Spec.wellFormedB and compared with the model's frame; "
+        "offset zones); one api object used for a while (reconnected, failed logins in between), also against a device that takes 0.5 s .. 2 min "
+        "over some replies under a virtual loop clock; every frame the real API object writes is judged by Spec.wellFormedB and compared with the model's frame; "
         "non-trivial = distinct (operation, argument class, frame-length bucket, outcome class)")
 ASSUMPTIONS = ["asyncio stream objects replaced by scripted in-memory reader/writer (the real connect()/write/read code path of "
                "the API classes runs); time frozen with time_machine; host zone set with TZ + tzset",
